@@ -213,6 +213,14 @@ func (g *ltGen) decimal(p int, maxInt int, signed bool) float64 {
 		}
 	case 2:
 		v = float64(r.intn(maxInt + 1))
+	case 3, 4:
+		// below one in magnitude: the integer part is zero and the sign lives in the fraction only
+		v = float64(r.intn(int(scale)+1)) / scale
+	case 5:
+		v = pick(r, []float64{1, 10, 100, 0.5, 9.5, 99.5, 0.1, 999.9})
+		if g.domain {
+			v = math.Round(v*scale) / scale // at the field's own precision
+		}
 	}
 	if signed && r.chance(1, 3) {
 		v = -v
